@@ -138,3 +138,71 @@ def attach_rexpy():
 def attach(*groups):
     for g in groups:
         globals()['attach_' + g]()
+
+
+# ---------------------------------------------------------------------------
+# rexpy coverage (C18)
+# ---------------------------------------------------------------------------
+def attach_rexcoverage():
+    if 'rexcoverage' in _attached:
+        return
+    _attached.add('rexcoverage')
+    import copy
+    from tdda.rexpy import rexpy
+
+    def coverage_counts_are_exact(patterns, examples, dedup, result):
+        EVALS['rex_coverage'] += 1
+        strings, freqs = list(examples.strings), list(examples.freqs)
+        for p, got in zip(patterns, result):
+            try:
+                c = re.compile(p, FLAGS)
+            except re.error:
+                return True
+            want = sum((1 if dedup else n) for s, n in zip(strings, freqs) if c.match(s))
+            if want != got:
+                return broken('rex_coverage', rex=p, got=got, want=want, dedup=bool(dedup))
+        if len(result) != len(patterns):
+            return broken('rex_coverage.len', got=len(result), want=len(patterns))
+        return True
+
+    ensure(rexpy, 'rex_coverage', coverage_counts_are_exact)
+
+    def snap_matrix(matrix):
+        return copy.deepcopy(matrix)
+
+    def credit_assignment_is_exact(patterns, matrix, deduped, indexes, examples, sort_on_deduped, result, OLD):
+        """Replays the greedy credit assignment on the matrix as it was on entry: every
+        example is credited to exactly the first listed expression that matches it."""
+        EVALS['matrices2incremental_coverage'] += 1
+        m0 = OLD.m0
+        freqs = list(examples.freqs)
+        uncredited = set(range(len(m0)))
+        pos = {p: i for i, p in enumerate(patterns)}
+        prev = None
+        for rex, cov in result.items():
+            p = pos.get(rex)
+            if p is None:
+                return broken('incr.unknown_pattern', rex=rex)
+            newly = [i for i in uncredited if m0[i][p]]
+            incr = sum(freqs[i] for i in newly)
+            if cov.incr != incr or cov.incr_uniq != len(newly):
+                return broken('incr.credit', rex=rex, got=[cov.incr, cov.incr_uniq], want=[incr, len(newly)])
+            n = sum(freqs[i] for i in range(len(m0)) if m0[i][p])
+            nu = sum(1 for i in range(len(m0)) if m0[i][p])
+            if cov.n != n or cov.n_uniq != nu:
+                return broken('incr.totals', rex=rex, got=[cov.n, cov.n_uniq], want=[n, nu])
+            key = cov.incr_uniq if sort_on_deduped else cov.incr
+            if prev is not None and key > prev:
+                return broken('incr.order', rex=rex, got=key, prev=prev)
+            prev = key
+            uncredited.difference_update(newly)
+        left = [i for i in uncredited if any(m0[i])]
+        if left:
+            return broken('incr.uncredited', n=len(left))
+        return True
+
+    g = icontract.ensure(credit_assignment_is_exact, error=ContractBroken)(rexpy.matrices2incremental_coverage)
+    g = icontract.snapshot(snap_matrix, name='m0')(g)
+    old = rexpy.matrices2incremental_coverage
+    rexpy.matrices2incremental_coverage = g
+    _patch_aliases(old, g)
